@@ -1134,6 +1134,15 @@ fn case_strategy(tier: Tier) -> BoxedStrategy<Case> {
 impl Property for C12 {
     type Case = Case;
 
+    fn fuzz(&self) -> Option<FuzzSpec> {
+        // entropy-driven target: libFuzzer's bytes replace the generator's random numbers
+        Some(FuzzSpec { target: "gen", jobs: 8, runs: 10_000, max_len: 8192, seeds: 64 })
+    }
+
+    fn entropy_tail(&self) -> usize {
+        1 << 17
+    }
+
     fn id(&self) -> &'static str {
         "C12"
     }
